@@ -127,6 +127,9 @@ pub fn valid_case(r: &Req) -> bool {
     if r.f == "acc" {
         return true;
     }
+    if r.f == "vcut" {
+        return super::c14::valid_case(r) && matches!(r.s("oc"), "vec" | "deque" | "nd") && matches!(r.s("cm"), "plain" | "trusted");
+    }
     super::c05::valid_case(r)
 }
 
@@ -143,6 +146,22 @@ pub fn generate(tier: &str, rng: &mut Rng) -> (Vec<String>, bool) {
         for _ in 0..(if thorough { 200 } else { 20 }) {
             let len = 5 + rng.below(if *b == "arr" { 4 } else { 30 });
             out.push(format!("acc b={} xs={}", b, join(&rand_series(rng, len, 8, false, true))));
+        }
+    }
+    // (c) a fallible mapping collected into every output container by both fallible collectors: the labels,
+    // or the first per-element error, whatever the container
+    for len in 0..=(if thorough { 4 } else { 3 }) {
+        for xs in all_series(&["_", "-5", "5", "15", "25"], len) {
+            for (ab, labels) in [(0, "1,2"), (1, "1,2,3,4")] {
+                for right in 0..2 {
+                    for oc in ["vec", "deque", "nd"] {
+                        for cm in ["plain", "trusted"] {
+                            let t = if (len + right) % 2 == 0 { "f64" } else { "oi32" };
+                            out.push(format!("vcut t={} lt=oi32 oc={} cm={} xs={} bins=0,10,20 labels={} right={} ab={}", t, oc, cm, join(&xs), labels, right, ab));
+                        }
+                    }
+                }
+            }
         }
     }
     // (b) functions: backend regime and output-container/path regime
@@ -222,5 +241,5 @@ pub fn known_finding(r: &Req, imp: &str, _spec: &str) -> Option<String> {
 }
 
 pub fn rule(tier: &str) -> String {
-    format!("(a) accessor table (len, checked get at 0..=len, iteration both directions, size hint, every sub-slice a<=b<=len, contiguous view when offered) of 17 input backends (the option view of a Vec and of an ndarray, Vec, slice, [T;N], Arc<Vec>, VecDeque head offsets 0/1/3, Arc<VecDeque>, Array1, ArrayViewMut1, ArrayView1 step 1,2,3,-1,-2) against the logical sequence, exhaustive over {{null,1,2}}^len, len <= {}; (b) every catalogued function ({}) on every sized backend (round-robin) and every output container x {{returned, caller buffer}} (incl. a strided ndarray view as caller buffer, checked for writes outside its slots): full values against the single model result. Polars cells (ChunkedArray with 1..3 chunks and validity as input backend, and as output container of the returned path): series up to length 3 in the quick tier, 5 in the thorough tier. non-trivial = len >= 2 with a non-null output.", if tier == "thorough" { 6 } else { 4 }, ROLL.len())
+    format!("(a) accessor table (len, checked get at 0..=len, iteration both directions, size hint, every sub-slice a<=b<=len, contiguous view when offered) of 17 input backends (the option view of a Vec and of an ndarray, Vec, slice, [T;N], Arc<Vec>, VecDeque head offsets 0/1/3, Arc<VecDeque>, Array1, ArrayViewMut1, ArrayView1 step 1,2,3,-1,-2) against the logical sequence, exhaustive over {{null,1,2}}^len, len <= {}; (b) every catalogued function ({}) on every sized backend (round-robin) and every output container x {{returned, caller buffer}} (incl. a strided ndarray view as caller buffer, checked for writes outside its slots): full values against the single model result. Polars cells (ChunkedArray with 1..3 chunks and validity as input backend, and as output container of the returned path): series up to length 3 in the quick tier, 5 in the thorough tier. (c) vcut on every series over {{null,-5,5,15,25}} up to length 3 (4), edges 0,10,20 with and without open outer bounds, both closure sides, collected by try_collect_vec1 and try_collect_trusted_vec1 into Vec / VecDeque / Array1: the labels, or the first per-element error, whatever the container. non-trivial = len >= 2 with a non-null output.", if tier == "thorough" { 6 } else { 4 }, ROLL.len())
 }
